@@ -49,9 +49,7 @@ fn mpd_tokenize(line: &str) -> Option<Vec<String>> {
 fn wire(arg: &str) -> String {
     let mut cmd = Command::new("find");
     cmd.add_argument(arg).unwrap();
-    // Debug of Command shows the rendered bytes; take them through the public rendering path instead
     let mut io = Vec::new();
-    mpd_protocol::Connection::connect(std::io::Cursor::new(b"OK MPD 0.23.5\n".to_vec())).ok();
     struct W<'a>(&'a mut Vec<u8>, std::io::Cursor<Vec<u8>>);
     impl std::io::Read for W<'_> { fn read(&mut self, b: &mut [u8]) -> std::io::Result<usize> { self.1.read(b) } }
     impl std::io::Write for W<'_> { fn write(&mut self, b: &[u8]) -> std::io::Result<usize> { self.0.extend_from_slice(b); Ok(b.len()) } fn flush(&mut self) -> std::io::Result<()> { Ok(()) } }
